@@ -168,7 +168,9 @@ def call_kwargs(c, return_utilities=True, variant=0):
             kw["candidates"] = kw["candidates"].astype(np.int32)
         elif kw["candidates"] is not None:
             kw["candidates"] = np.asfortranarray(kw["candidates"])
-    if variant == 6:
+    if variant == 6 and getattr(e.domain, "__name__", "") != "_nb_domain":
+        # (scikit-learn's GaussianNB loses its variance smoothing in single precision when a class has zero variance and
+        # returns rows like [1, 1]: the third-party failure of DESIGN 5.8, so NB entries keep double precision)
         # single-precision features (the selection may differ from float64, validity may not)
         kw["X"] = kw["X"].astype(np.float32)
         if kw["candidates"] is not None and kw["candidates"].ndim == 2:
